@@ -105,6 +105,8 @@ def _pow2(rng, hi):
 # s is a scale knob: 1 = tiny, 2 = small, 3 = realistic
 
 def _S(s, tiny, small, real):
+    if s >= 4:                      # thorough tier only: beyond "realistic"
+        return int(real * 1.7) + 1
     return (tiny, small, real)[s - 1]
 
 
